@@ -395,9 +395,7 @@ def cli_globals(repo, rel, fs, wmod, datasets, extra=None):
         "FeatureSetNotIdenticalJoinWarning": UserWarning,
     }
     mini = Mini(g)
-    for st in repo.tree(rel).body:
-        if isinstance(st, ast.FunctionDef):
-            mini.g[st.name] = mini.bind(st)
+    mini.bind_module(repo.tree(rel))
     if extra:
         mini.g.update(extra)
     return mini
@@ -1184,3 +1182,29 @@ MUTANTS = list(MUTANTS) + [
       '                            str(dsa.config["experiment"]["run index"])\n'
       '                            ])\n'), "R9.4"),
 ]
+
+
+TWINS = list(TWINS) + [
+    ("join: time string split with a module constant", JOIN,
+     [("class FeatureSetNotIdenticalJoinWarning(UserWarning):",
+       "LEN_HMS = 8\n\n\n"
+       "class FeatureSetNotIdenticalJoinWarning(UserWarning):"),
+      ('            st = time.strptime(dsb.config["experiment"]["date"]\n'
+       "                               + etime[:8],\n"
+       '                               "%Y-%m-%d%H:%M:%S")\n',
+       '            edate = dsb.config["experiment"]["date"]\n'
+       "            etime_hms = etime[:LEN_HMS]\n"
+       '            st = time.strptime(edate + etime_hms, '
+       '"%Y-%m-%d%H:%M:%S")\n'),
+      ("            if len(etime) > 8:",
+       "            if len(etime) > LEN_HMS:"),
+      ("                t_offsets[ii] += float(etime[8:])",
+       "                etime_frac = etime[LEN_HMS:]\n"
+       "                t_offsets[ii] += float(etime_frac)")]),
+    ("split: default part size derived from module constants", SPLIT,
+     [("def split(\n",
+       "PART_BASE = 1000\nPART_DEFAULT = 10 * PART_BASE\n\n\ndef split(\n"),
+      ("        split_events: int = 10000,",
+       "        split_events: int = PART_DEFAULT,")]),
+]
+
